@@ -212,6 +212,7 @@ def processStep (st : DState) (si : StepIn) : DState × String := Id.run do
       if bo.contains "w" then orc := orc ++ ["o10w"]
       if bo.contains "h" then orc := orc ++ ["o11h"]
       if bo.contains "x" then orc := orc ++ ["o03x"]
+      if bo.contains "d" then orc := orc ++ ["o13d"]
       if adopt then
         let lf := match findById lid pw.mkt.listings with | some (_, l) => l.fee | none => none
         let bf := match pw.mkt.buckets.find? (fun p => decide (p.1.2 = bid)) with | some (_, b) => b.fee | none => none
@@ -236,7 +237,7 @@ def processStep (st : DState) (si : StepIn) : DState × String := Id.run do
     | none => pure ()
   if adopt && !ghostOk pw st'.charged then orc := orc ++ ["o10"]
   -- C10: the pool messages of a response are exactly the recorded fees that leave the records
-  if io.ok && si.fault.isNone then
+  if (io.ok || !io.msgs.isEmpty) && si.fault.isNone then
     let expectPool : Option (List (List Nat)) := match si.op with
       | .exec _ _ (.withdrawPurchased lid) =>
         (match findById lid cur.mkt.listings with
@@ -254,6 +255,9 @@ def processStep (st : DState) (si : StepIn) : DState × String := Id.run do
     match expectPool with
     | some e => if poolCodes (sortCodes (io.msgs.map implMsgCode)) != sortCodes e then orc := orc ++ ["o10m"]
     | none => pure ()
+    -- a pool message that does not decode / names another depositor (the chain rejects it)
+    if io.msgs.any (fun m => match m with | .pool false _ _ => true | .pool true d _ => d != cur.self | _ => false) then
+      orc := orc ++ ["o10d"]
   -- C02: acceptance of a purchase is exactly the published terms (on the implementation pre-state)
   match si.op with
   | .exec buyer funds (.buy lid bid) =>
@@ -281,6 +285,8 @@ def processStep (st : DState) (si : StepIn) : DState × String := Id.run do
       (match findById lid cur.mkt.listings, cur.mkt.buckets.find? (fun (p : (Nat × Nat) × Bucket) => decide (p.1.2 = bid)) with
        | some (_, l), some (_, b) => s!"bps:{sideBps cur l.forSale}:{sideBps cur b.funds}"
        | _, _ => "-")
+    | .exec s _ (.receive u _ _) => if u == RawAddr.valid s then "own" else "other"
+    | .exec s _ (.receiveNft u _ _) => if u == RawAddr.valid s then "own" else "other"
     | _ => "-"
   let ans := s!"{fl} {si.kind} i={if io.ok then "ok" else if io.dirty then "errd" else "err"} m={errName mo.err} D={join diffs} O={join orc} K={join klass} S={opShape cur si.op} X={extra}"
   return (st', ans)
@@ -537,7 +543,9 @@ def processLine (st : DState) (lineNo : Nat) (line : String) : DState × String 
       w.bank.all (fun p => p.1.1 != w.self || p.2 == 0) &&
       w.cw20.all (fun p => p.1.2 != w.self || p.2 == 0) &&
       w.nft.all (fun p => p.2 != w.self)
-    ({ st with drain := false }, s!"A {lineNo} ENDDRAIN O={if empty then "-" else "o07e"}")
+    -- records all gone but assets left: the holdings are unaccounted for (C01 as well)
+    let norec := w.mkt.listings.isEmpty && w.mkt.buckets.isEmpty
+    ({ st with drain := false }, s!"A {lineNo} ENDDRAIN O={if empty then "-" else if norec then "o07e,o01e" else "o07e"}")
   | kind :: rest =>
     if !st.started then (st, s!"E {lineNo} no-init") else
     if kind == "STEP" || kind == "PROBE" || kind == "STEPF" then
